@@ -126,6 +126,8 @@ pub fn run(tier: &str, seed: u64, widen: bool) -> Report {
             rep.oracle_fail(label, json!({"source": src}), json!(got), json!(model), "built executable disagrees with the reference semantics");
         }
     }
+    // aggregate comparison (`==` / `!=` on arrays, slices, structs, sum types)
+    crate::c01_eq::run(&mut rep, &mut rng, tier, widen);
     rep
 }
 
